@@ -63,6 +63,9 @@ type caseC17 struct {
 	// Tracer: while the program makes its calls (a few hundred in a loop), another goroutine keeps switching the execution tracer
 	// (runtime/trace) on and off, as a /debug/pprof/trace handler or a sampling agent does
 	Tracer bool `json:"tracer,omitempty"`
+	// Godebug: the program runs with this GODEBUG setting (runtime knobs a deployment may set: asyncpreemptoff=1 is the documented
+	// work-around for signal trouble, and what platforms without asynchronous preemption always have)
+	Godebug string `json:"godebug,omitempty"`
 }
 
 // writeFork copies the non-test sources of the tree under test into dir/fork as module example.com/fork/secp256k1.
@@ -158,12 +161,14 @@ import (
 	"crypto"
 	"crypto/sha256"
 	"hash"
+	"runtime"
 )
 
 type onlyHash struct{ hash.Hash }
 
 func init() {
-	crypto.RegisterHash(crypto.SHA256, func() hash.Hash { return onlyHash{sha256.New()} })
+	// (a constructor with a scheduling point: metering, logging, a pool)
+	crypto.RegisterHash(crypto.SHA256, func() hash.Hash { runtime.Gosched(); return onlyHash{sha256.New()} })
 }
 `
 
@@ -296,6 +301,18 @@ func main() {
 	case "goroutine":
 		go func() { ch <- compute() }()
 		out = <-ch
+	case "crowd": // the first calls of the process are made by eight goroutines at once
+		res := make(chan []byte, 8)
+		for i := 0; i < 8; i++ {
+			go func() { res <- compute() }()
+		}
+		for i := 0; i < 8; i++ {
+			if r := <-res; out == nil {
+				out = r
+			} else if string(r) != string(out) {
+				out = []byte("crowd disagrees")
+			}
+		}
 	case "finalizer": // on the finalizer goroutine
 		obj := new(big64)
 		runtime.SetFinalizer(obj, func(*big64) { ch <- compute() })
@@ -357,7 +374,7 @@ func runC17(c caseC17, o *gen.Obs) error {
 	o.ClassIf(otherLinks, "sha256-linked-by-others")
 	o.ClassIf(c.Wrap, "registry-replaced")
 	o.ClassIf(c.Rejected > 0, "after-rejected-calls")
-	o.NonTrivialIf(!otherLinks || c.Wrap || c.Rejected > 0 || c.SingleP || c.Arch386 || c.DeadStderr || c.Where != "" || c.Outage || c.IdleMs > 0 || c.Fork || c.Tracer)
+	o.NonTrivialIf(!otherLinks || c.Wrap || c.Rejected > 0 || c.SingleP || c.Arch386 || c.DeadStderr || c.Where != "" || c.Outage || c.IdleMs > 0 || c.Fork || c.Tracer || c.Godebug != "")
 
 	dir, err := os.MkdirTemp("", "verif-c17-")
 	if err != nil {
@@ -450,6 +467,13 @@ func runProgram(c caseC17, o *gen.Obs, dir string, limit time.Duration, stdout, 
 		run.Env = append(os.Environ(), "GOMAXPROCS=1")
 		o.Class("single-p")
 	}
+	if c.Godebug != "" {
+		if run.Env == nil {
+			run.Env = os.Environ()
+		}
+		run.Env = append(run.Env, "GODEBUG="+c.Godebug)
+		o.Class("godebug:" + c.Godebug)
+	}
 	if c.DeadStderr {
 		pr, pw, perr := os.Pipe()
 		if perr != nil {
@@ -517,7 +541,10 @@ var c17 = gen.Register(&gen.Check[caseC17]{
 		c.SingleP = gen.Chance(t, "singleP", 1, 3)
 		c.Arch386 = gen.Chance(t, "arch386", 1, 4)
 		c.DeadStderr = gen.Chance(t, "deadStderr", 1, 4)
-		c.Where = []string{"", "", "init", "goroutine", "locked", "finalizer"}[gen.Pick(t, "where", 6)]
+		c.Where = []string{"", "", "init", "goroutine", "locked", "finalizer", "crowd"}[gen.Pick(t, "where", 7)]
+		if gen.Chance(t, "godebug", 1, 4) {
+			c.Godebug = rapid.SampledFrom([]string{"asyncpreemptoff=1", "asyncpreemptoff=1,gcstoptheworld=1", "madvdontneed=1", "asyncpreemptoff=1"}).Draw(t, "godebugValue")
+		}
 		c.Outage = gen.Chance(t, "outage", 1, 4)
 		c.Fork = gen.Chance(t, "fork", 1, 5)
 		c.Tracer = gen.Chance(t, "tracer", 1, 6)
@@ -558,6 +585,8 @@ var c17 = gen.Register(&gen.Check[caseC17]{
 			{Fn: "HashToGroup", Msg: "616263", Dst: dst, Fork: true}, {Fn: "HashToScalar", Msg: "616263", Dst: hex.EncodeToString(bytes.Repeat([]byte{'f'}, 300)), Fork: true},
 			{Fn: "HashToGroup", Msg: "616263", Dst: dst, Go126: go126()}, {Fn: "HashToScalar", Msg: "616263", Dst: hex.EncodeToString(bytes.Repeat([]byte{'n'}, 300)), Go126: go126(), Where: "goroutine"},
 			{Fn: "HashToGroup", Msg: "616263", Dst: dst, Outage: true}, {Fn: "EncodeToGroup", Msg: "616263", Dst: dst, Outage: true}, {Fn: "HashToScalar", Msg: "616263", Dst: dst, Outage: true},
+			{Fn: "HashToGroup", Msg: "616263", Dst: dst, Where: "crowd", SingleP: true, Godebug: "asyncpreemptoff=1", Wrap: true},
+			{Fn: "HashToScalar", Msg: "616263", Dst: dst, Where: "crowd", Godebug: "asyncpreemptoff=1"}, {Fn: "EncodeToGroup", Msg: "616263", Dst: dst, Where: "crowd", SingleP: true, Wrap: true},
 			{Fn: "HashToGroup", Msg: "616263", Dst: dst, Where: "init"}, {Fn: "HashToScalar", Msg: "616263", Dst: dst, Where: "finalizer"},
 			{Fn: "EncodeToGroup", Msg: "616263", Dst: dst, Where: "locked", SingleP: true}, {Fn: "HashToGroup", Msg: "", Dst: dst, Where: "goroutine"},
 			{Fn: "HashToGroup", Msg: "616263", Dst: dst, Arch386: true}, {Fn: "HashToScalar", Msg: "616263", Dst: dst, Arch386: true},
